@@ -739,7 +739,9 @@ func (fc *fctx) panicAt(st *State, fr *frame, call *ast.CallExpr) {
 	if fr == fc.root || true {
 		for _, cl := range fc.contract.Clauses {
 			if cl.Kind == "panics_only_if" {
-				env := fc.oldEnv(st)
+				// evaluated in the state at the panic (old(e) names the entry state): the condition may be a
+				// ghost recorded on the way, e.g. "the store refused the write"
+				env := fc.postEnv(st, fr)
 				cond = Or(cond, env.evalBool(cl.Expr))
 			}
 		}
